@@ -26,7 +26,8 @@ class Net(object):
     def __init__(self):
         self.current = None            # host (ip string) whose code is running
         self.listeners = {}            # (ip, port) -> FakeSocket
-        self.socks = weakref.WeakSet()
+        self.socks = weakref.WeakValueDictionary()   # serial -> socket (iteration by serial: deterministic)
+        self.serial = 0
         self.next_fd = collections.defaultdict(lambda: 10)
         self.free_fd = collections.defaultdict(list)
         self.dead_hosts = set()
@@ -34,6 +35,7 @@ class Net(object):
         self.max_send = None           # adversary: cap on bytes accepted per send() call (short writes)
         self.max_recv = None           # adversary: cap on bytes returned per recv() call (split reads)
         self.force_eagain = 0          # adversary: the next n send() calls report EAGAIN
+        self.dying = []                # flows of closed sockets: remaining data, then FIN
 
     def alloc_fd(self, host):
         f = self.free_fd[host]
@@ -71,12 +73,25 @@ class FakeSocket(object):
         self.backlog = collections.deque()
         self.flow_dropped = False      # a middlebox forgot the flow: bytes vanish in both directions
         self.closed = False
-        NET.socks.add(self)
+        self.keepalive = False
+        self.ka_idle, self.ka_intvl, self.ka_cnt = 7200, 75, 9
+        self.last_rx = CLK.now
+        NET.serial += 1
+        self.serial = NET.serial
+        NET.socks[self.serial] = self
 
     # -- the API TcpConnection / TcpServer use ------------------------------------------------
     def setsockopt(self, level, opt, val):
         if level == real_socket.SOL_SOCKET and opt == real_socket.SO_SNDBUF:
             self.sndbuf = max(1, int(val))
+        elif level == real_socket.SOL_SOCKET and opt == real_socket.SO_KEEPALIVE:
+            self.keepalive = bool(val)
+        elif level == real_socket.IPPROTO_TCP and opt == getattr(real_socket, 'TCP_KEEPIDLE', -1):
+            self.ka_idle = val
+        elif level == real_socket.IPPROTO_TCP and opt == getattr(real_socket, 'TCP_KEEPINTVL', -2):
+            self.ka_intvl = val
+        elif level == real_socket.IPPROTO_TCP and opt == getattr(real_socket, 'TCP_KEEPCNT', -3):
+            self.ka_cnt = val
 
     def getsockopt(self, level, opt):
         if level == real_socket.SOL_SOCKET and opt == real_socket.SO_ERROR:
@@ -164,7 +179,13 @@ class FakeSocket(object):
             self.net.listeners.pop((self.host, self.addr[1]), None)
         self.state = 'closed'
         self.net.free_fd[self.host].append(self.fd)
-        # data already handed to the kernel is still delivered, then FIN
+        # data already handed to the kernel is still delivered, then FIN.  The socket object may be
+        # garbage collected right away, so the network keeps the dying flow.
+        p = self.peer
+        if p is not None and not self.flow_dropped and not getattr(self, 'killed', False):
+            self.net.dying.append({'data': bytearray(self.wire), 'peer': p, 'pair': frozenset((self.host, p.host))})
+            self.fin_sent = True
+        self.wire = bytearray()
 
     def __del__(self):
         try:
@@ -201,7 +222,7 @@ class SimPoller(Poller):
 
     def poll(self, timeout):
         byfd = {}
-        for s in list(NET.socks):
+        for s in live_socks():
             if s.host == self.host and not s.closed:
                 byfd[s.fd] = s
         for fd, (cb, mask) in sorted(list(self.subs.items())):
@@ -241,12 +262,13 @@ def install():
 
 
 def live_socks():
-    return [s for s in list(NET.socks)]
+    return [s for _, s in sorted(list(NET.socks.items()))]
 
 
 def pair(a, b):
     a.peer, b.peer = b, a
     a.state = b.state = 'established'
+    a.last_rx = b.last_rx = CLK.now
 
 
 def complete_connect(s, refuse=False):
@@ -282,12 +304,47 @@ def move(s, n=None):
     if k:
         if not p.closed and p.host not in NET.dead_hosts:
             p.inbuf += s.wire[:k]
+            p.last_rx = CLK.now
         del s.wire[:k]
     if s.closed and not s.wire and not s.fin_sent:
         s.fin_sent = True
         if not p.closed:
             p.eof = True
     return k
+
+
+def move_dying(held=(), n=None):
+    """Deliver what closed sockets had still sent, then their FIN."""
+    keep = []
+    for d in NET.dying:
+        p = d['peer']
+        if p.closed or p.host in NET.dead_hosts:
+            continue
+        if d['pair'] in held:
+            keep.append(d)
+            continue
+        k = len(d['data']) if n is None else min(n, len(d['data']))
+        if k:
+            p.inbuf += d['data'][:k]
+            del d['data'][:k]
+        if d['data']:
+            keep.append(d)
+        else:
+            p.eof = True
+    NET.dying[:] = keep
+
+
+def keepalive_step():
+    """Kernel TCP keep-alive: an established socket whose flow is dead (dropped in the network, peer
+    process killed) gets ETIMEDOUT after keepidle + keepintvl * keepcnt seconds without traffic."""
+    for s in live_socks():
+        if s.closed or s.state != 'established' or not s.keepalive or s.err:
+            continue
+        p = s.peer
+        dead_flow = s.flow_dropped or p is None or getattr(p, 'killed', False) or p.host in NET.dead_hosts
+        if dead_flow and CLK.now - s.last_rx > s.ka_idle + s.ka_intvl * s.ka_cnt:
+            s.err = errno.ETIMEDOUT
+            NET.stats['keepalive_timeouts'] += 1
 
 
 def reset(s):
